@@ -17,6 +17,81 @@ BACKENDS = ["debug", "internal", "tbb", "omp"]
 OMP_SIG = "C13-omp-limit-applies-to-initialising-thread-only"
 
 
+# ------------------------------------------------------------------------------------------ inventory closure
+# every declaration of the anchored files (clang AST under each backend define, tools/declinv) -> theorems + harness operations,
+# or an out-of-scope reason.  ops: "<backend>:<op>" / "<op>" (any backend the declaration exists for); op in init, init_flag, use, pf, ot, cre
+_ALLB = "dbg,int,omp,tbb"
+_ICPP = "detail/tasking_system_init.cpp"
+_INIT_T = ["threads_after_init", "threads_default_positive", "threads_reinit_replaces", "facts_denote_init_src", "init_shape_src"]
+COVER = {
+    ("tasking_system_init.h", "function", "initTaskingSystem", "void (int, bool)"): dict(b=_ALLB, thms=_INIT_T, ops=["init", "init_flag"]),
+    ("tasking_system_init.h", "function", "numTaskingThreads", "int ()"): dict(b=_ALLB, thms=["threads_before_init", "facts_denote_report_src", "threads_zero_without_init_whatever_uses"], ops=["init", "use"]),
+    (_ICPP, "function", "initTaskingSystem", "void (int, bool)"): dict(b=_ALLB, thms=_INIT_T + ["tbb_limit_during_reinit_src"], ops=["init", "init_flag", "tbb:cre"],
+        note="flushDenormals only sets FTZ/DAZ in the calling thread's MXCSR (the same on every backend; worker threads are not touched): not "
+             "about the thread count; the fact table ignores exactly that block and fails closed on anything else; histories with the flag "
+             "set must report the same numbers (op init_flag)"),
+    (_ICPP, "function", "numTaskingThreads", "int ()"): dict(b=_ALLB, thms=["threads_before_init", "facts_denote_report_src", "threads_uses_are_transparent"], ops=["init", "use"]),
+    (_ICPP, "class", "tasking_system_handle", "struct"): dict(b=_ALLB, thms=["facts_denote_construct_src", "facts_denote_init_src"], ops=["init"]),
+    (_ICPP, "ctor", "tasking_system_handle::<ctor>", "void (int)"): dict(b=_ALLB, thms=["facts_denote_construct_src", "threads_after_init_src", "internal_worker_count"], ops=["init", "pf"]),
+    (_ICPP, "field", "tasking_system_handle::numThreads", "int"): dict(b=_ALLB, thms=["facts_denote_construct_src"], ops=["init"],
+        note="initialised from the constructor argument and never read: no observable effect (the model's h_n)"),
+    (_ICPP, "field", "tasking_system_handle::tbb_gc", "std::unique_ptr<tbb::global_control>"): dict(b="tbb", thms=["tbb_only_new_control_live", "tbb_limit_during_reinit", "tbb_limit_during_reinit_src"], ops=["tbb:init", "tbb:cre", "tbb:pf"]),
+    (_ICPP, "method", "tasking_system_handle::num_threads", "int ()"): dict(b=_ALLB, thms=["facts_denote_report_src", "threads_openmp_last_positive"], ops=["init"]),
+    (_ICPP, "variable", "g_tasking_handle", "std::unique_ptr<tasking_system_handle> static"): dict(b=_ALLB, thms=["init_shape_src", "threads_before_init_src", "threads_last_init_determines"], ops=["init"]),
+    ("detail/TaskSys.cpp", "function", "detail::initTaskSystemInternal", "void (int)"): dict(b="int", thms=["facts_denote_construct_src", "internal_worker_count", "internal_default_worker_count", "internal_workers_never_accumulate", "worker_loop_src"], ops=["internal:init", "internal:pf"]),
+    ("detail/TaskSys.cpp", "function", "detail::numThreadsTaskSystemInternal", "int ()"): dict(b="int", thms=["facts_denote_report_src"], ops=["internal:init"]),
+    ("detail/TaskSys.cpp", "function", "detail::scheduleTaskInternal", "void (detail::Task *)"): dict(b="int", thms=["threads_zero_without_init_whatever_uses", "threads_uses_are_transparent"], ops=["internal:use"],
+        note="lazy start of the scheduler (if g_ts is null): a use is not an initialisation"),
+    ("detail/TaskSys.cpp", "function", "detail::waitInternal", "void (detail::Task *)"): dict(b="int", skip="waiting for a task set: not about the thread count; covered by C01 / C02"),
+    ("detail/TaskSys.cpp", "variable", "detail::g_ts", "std::unique_ptr<enki::TaskScheduler> static"): dict(b="int", thms=["facts_denote_construct_src", "threads_zero_without_init_whatever_uses"], ops=["internal:init", "internal:use"]),
+}
+INV_ANCHORS = ["rkcommon/tasking/tasking_system_init.h", "rkcommon/tasking/detail/tasking_system_init.cpp", "rkcommon/tasking/detail/TaskSys.cpp"]
+
+
+def inventory(ctx, opcount, theorems):
+    sys.path.insert(0, os.path.join(ctx.verif, "tools", "declinv"))
+    import declinv
+    defs = {"tbb": ["-DRKCOMMON_TASKING_TBB"], "omp": ["-DRKCOMMON_TASKING_OMP", "-fopenmp"], "int": ["-DRKCOMMON_TASKING_INTERNAL"], "dbg": []}
+    src = os.path.join(ctx.repo, "rkcommon/tasking/detail/tasking_system_init.cpp")
+    units = [(b, src, "rkcommon::tasking", d) for b, d in defs.items()]
+    units += [("int:ts", os.path.join(ctx.repo, "rkcommon/tasking/detail/TaskSys.cpp"), "rkcommon::tasking", defs["int"])]
+    try:
+        inv = declinv.inventory_union(ctx.repo, ctx.include_dir(), os.path.join(ctx.build, "ast"), units, INV_ANCHORS)
+    except Exception as e:
+        ctx.broken.append("inventory: enumeration of the declarations failed: %s" % str(e)[-300:])
+        return {}
+    label = lambda k: "%s %s `%s` : %s" % (k[0], k[1], k[2], k[3])
+    bname = {"dbg": "debug", "int": "internal", "omp": "omp", "tbb": "tbb"}
+    out = {}
+    for k, backs in sorted(inv.items()):
+        e = COVER.get(k)
+        if e is None:
+            ctx.broken.append("inventory: declaration not in the COVER table (new overload / member / changed signature): " + label(k))
+            continue
+        if ",".join(backs) != e["b"]:
+            ctx.broken.append("inventory: %s is declared under backends %s, COVER says %s" % (label(k), ",".join(backs), e["b"]))
+        if "skip" in e:
+            out[label(k)] = {"out_of_scope": e["skip"]}
+            continue
+        missing = [x for x in e["thms"] if x not in theorems]
+        if missing:
+            ctx.broken.append("inventory: %s names theorems that do not exist: %s" % (label(k), missing))
+        counts = {}
+        for op in e["ops"]:
+            if ":" in op:
+                counts[op] = opcount.get(op, 0)
+            else:
+                counts[op] = sum(opcount.get(bname[x] + ":" + op, 0) for x in backs)
+        zero = [o for o, c in counts.items() if c == 0]
+        if zero:
+            ctx.broken.append("inventory: covered declaration %s was not executed in this run: %s" % (label(k), ", ".join(zero)))
+        out[label(k)] = {"theorems": e["thms"], "executed": counts}
+    for k in COVER:
+        if k not in inv:
+            ctx.broken.append("inventory: COVER entry whose declaration vanished or changed signature: " + label(k))
+    return out
+
+
 def prop_oracle(b, hw, ns, reps):
     """what the PROPERTY TEXT requires of the observed reports (independent of the Coq model);
     ns: ints (initTaskingSystem(n)) and 'u' / 's' (a use: parallel_for / schedule);  returns a list of (position, required) that fail"""
@@ -28,6 +103,8 @@ def prop_oracle(b, hw, ns, reps):
     inits = 0
     for i, n in enumerate(ns):
         r = reps[i + 1]
+        if isinstance(n, str) and n.startswith("f"):
+            n = int(n[1:])            # initTaskingSystem(n, flushDenormals=true): same requirements as without the flag
         if n in ("u", "s"):
             if inits == 0 and r != 0:
                 out.append((i + 1, "0 before initialisation (a parallel_for / schedule() is not an initialisation)"))
@@ -138,6 +215,7 @@ def run(ctx):
     hx = dict(zip(BACKENDS, exes))
     r = ctx.rng("cases")
     hist_n, hist_len = {}, {}
+    opcount = {}
     hws = {}
     pf_nontriv = 0
     pf_hist = {}
@@ -169,8 +247,11 @@ def run(ctx):
         useqs = [list(t) for k in range(1, 4) for t in itertools.product(uvals, repeat=k) if any(x in ("u", "s") for x in t)]
         useqs += [[r.choice(vals + ["u", "u", "s"]) for _ in range(r.randint(3, 5))] for _ in range(ctx.pick(60, 400))]
         seqs += [s for s in useqs if any(x in ("u", "s") for x in s)]
+        # initTaskingSystem(n, flushDenormals=true) mixed into histories: the flag must not change any report
+        fl = lambda x: x if isinstance(x, str) else "f%d" % x
+        seqs += [[fl(x) if (i + j) % 2 == 0 else x for i, x in enumerate(s)] for j, s in enumerate(seqs[:60])]
         cases = [" ".join(map(str, s)) for s in seqs]
-        mcases = ["%s %d %s" % (b, model_hw if b != "debug" else 16, c) for c in cases]
+        mcases = ["%s %d %s" % (b, model_hw if b != "debug" else 16, " ".join(x[1:] if x.startswith("f") else x for x in c.split())) for c in cases]
         rc, hl, herr = run_batch(ctx, hx[b], "seq", cases, b, timeout=ctx.pick(300, 1200))
         mrc, ml, merr = vlib.run_lines(ctx, model, [], mcases, timeout=300)
         if mrc != 0 or len(ml) != len(cases):
@@ -186,6 +267,10 @@ def run(ctx):
         for s, c, h, m in zip(seqs, cases, hl, ml):
             hist_len[len(s)] = hist_len.get(len(s), 0) + 1
             for n in s:
+                opk = b + ":" + ("use" if n in ("u", "s") else "init_flag" if isinstance(n, str) else "init")
+                opcount[opk] = opcount.get(opk, 0) + 1
+                if isinstance(n, str) and n.startswith("f"):
+                    n = int(n[1:])
                 key = "use" if n in ("u", "s") else "hw" if n == model_hw and b != "debug" else ("2hw" if n == 2 * model_hw and b != "debug" else str(n))
                 hist_n[key] = hist_n.get(key, 0) + 1
             mrep = m.split(" workers=")[0]
@@ -238,6 +323,7 @@ def run(ctx):
                           found_input=len(pl) < len(pcases))
             continue
         ctx.count(len(pcases))
+        opcount[b + ":pf"] = opcount.get(b + ":pf", 0) + len(pcases)
         rep1 = False
         for c, l in zip(pcases, pl):
             a, n, size, dur = c
@@ -281,6 +367,7 @@ def run(ctx):
             ctx.violation("%s backend: the other-thread harness died (rc=%d)" % (b, rc), {"backend": b, "stderr_tail": oerr[-1500:]}, found_input=False)
             continue
         ctx.count(2 * len(ocases))
+        opcount[b + ":ot"] = len(ocases)
         reported_known = False
         for c, l in zip(ocases, ol):
             n, size, dur = c
@@ -334,6 +421,7 @@ def run(ctx):
                           {"backend": b, "stderr_tail": cerr[-1500:]}, found_input=False)
             continue
         ctx.count(len(ccases))
+        opcount[b + ":cre"] = len(ccases)
         for c, l in zip(ccases, cl):
             n, m, _ = c
             f = dict(x.split("=") for x in l.split() if "=" in x)
@@ -361,6 +449,9 @@ def run(ctx):
             else:
                 ctx.cov.setdefault("unconfirmed_concurrency_excess", []).append({"backend": b, "case": c, "first": l, "second": o2.strip()})
     ctx.cov["concurrent_reinit_observations"] = cre_obs
+    ctx.cov["inventory"] = inventory(ctx, opcount, set(ctx.cov.get("theorems", [])))
+    ctx.cov["inventory_declarations"] = len(ctx.cov["inventory"])
+    ctx.cov["operation_counts"] = opcount
     ctx.cov.setdefault("transient_hangs", [])
     ctx.cov["hardware_default_per_backend"] = hws
     ctx.cov["init_value_histogram"] = hist_n
